@@ -205,6 +205,7 @@ func init() {
 			k.PFocus = 40
 			k.PInfo = 25
 			k.PCallback = 10
+			k.PNilOptArg = 12
 			k.MaxOps = 20
 			return GenCase(t, scale(k, thorough))
 		},
